@@ -31,7 +31,10 @@ RULE_ADDED = (
               'iming 2^29..2^60 bytes already hashed. '
               ' '
               'Round 11: the operation that came to nothing may be an advance refused for a coi'
-              'nbase whose byte count overflows 64 bits. ')
+              'nbase whose byte count overflows 64 bits. '
+              ' '
+              'Round 12: 15% of the cases preceded by state / parameter queries (update in prog'
+              'ress, best block found ...) and resets. ')
 RULE = RULE + " " + RULE_ADDED.strip()
 ASSUMPTIONS = [
     "simulated device + fake transports trusted; the device follows framing only",
@@ -142,6 +145,20 @@ def run_case(acc, cseed, spec, stack_holder):
         req = {"command": "updateAncestorBlock", "version": 5,
                "blocks": [b["raw"].hex() for b in blocks]}
         acc.count("ancestor_requests")
+    if rng.random() < 0.15:
+        # queries before this request told the manager about the device's state (an update
+        # in progress, best block found or not ...), possibly followed by a reset: what
+        # the manager learnt then says nothing about what the device asks for now
+        fw_ids = [0x01, 0x02, 0x03, 0x05, 0x81, 0x82, 0x84]
+        dev.state = {"hashes": {h_: rng.randbytes(32) for h_ in fw_ids},
+                     "difficulty": rng.getrandbits(100),
+                     "flags": rng.choice([(1, 0, 1), (1, 0, 1), (1, 1, 1), (1, 0, 0), (0, 0, 1),
+                                          (0, 0, 0)])}
+        for cmd_ in rng.choice([["blockchainState"], ["blockchainState", "resetAdvanceBlockchain"],
+                                ["blockchainState", "blockchainState"],
+                                ["blockchainParameters", "blockchainState"]]):
+            s.request({"command": cmd_, "version": 5})
+        acc.count("cases_preceded_by_state_queries")
     if rng.random() < 0.12:
         # the request before this one, on the same manager, was an advance / update that
         # came to nothing part of the way through: refused by the device at some exchange,
